@@ -80,7 +80,7 @@ def counting(A, cnt, annotations):
 
 
 def case_cg(T, n, max_iters, variant=0, complex_=False, x0mode="none", tol="sym", cols="one", precond="none", via="function",
-            rhs_scale=True):
+            rhs_scale=True, rhs_phase=False):
     dt = 'complex128' if complex_ else 'float64'
     Q = K.basis(T, n, variant, complex_, dt)
     alpha = [T.var(f"al{k}", positive=True) for k in range(n)]
@@ -111,6 +111,12 @@ def case_cg(T, n, max_iters, variant=0, complex_=False, x0mode="none", tol="sym"
     Tm = K.mat(T, rows, dt)
     At = Q @ Tm @ np.conjugate(Q).T  # SPD in the (possibly preconditioned) coordinates
     bt = s * Q[:, 0]
+    if rhs_phase:
+        # real operator, complex right-hand side (the default preconditioner and every intermediate must promote): b := s (3 + 4i)/5 q_0
+        from fractions import Fraction as F_
+        from .c14 import _item
+        assert not complex_ and cols == "one" and precond == "none"
+        bt = K.mat(T, [[_item(T, bt[i]) * K.cst(T, F_(3, 5), F_(4, 5)) for i in range(n)]], 'complex128')[0]
     Cm = None
     if precond == "none":
         A, b, P, Mprec = At, bt, None, None
@@ -233,12 +239,16 @@ def cases(tier, seed):
             out.append((f"class:n{n}m{m}", case_cg, dict(n=n, max_iters=m, via="class", tol=1e-6)))
             out.append((f"inv:n{n}m{m}", case_cg, dict(n=n, max_iters=m, via="inv", tol=1e-6)))
             out.append((f"inv-two:n{n}m{m}", case_cg, dict(n=n, max_iters=m, via="inv", cols="two", tol=1e-6)))
+            out.append((f"inv-x0:n{n}m{m}", case_cg, dict(n=n, max_iters=m, via="inv", x0mode="concrete", tol=1e-6), dict(partial_ok=True, flip_timeout_ms=1500)))
             out.append((f"precond-concrete:n{n}m{m}", case_cg, dict(n=n, max_iters=m, precond="concrete", tol=1e-9)))
         out.append((f"precond-jacobi:n{n}m1", case_cg, dict(n=n, max_iters=1, precond="jacobi", tol=1e-9)))
         out.append((f"two-symtol:n{n}", case_cg, dict(n=n, max_iters=n, cols="two")))
         if n >= 3:
             out.append((f"blocks-symtol:n{n}", case_cg, dict(n=n, max_iters=n, cols="blocks")))
             out.append((f"blocks:n{n}m1", case_cg, dict(n=n, max_iters=1, cols="blocks", tol=1e-6)))
+    for n, m in ((2, 1), (2, 2), (3, 3)):
+        out.append((f"real-A-complex-b:n{n}m{m}", case_cg, dict(n=n, max_iters=m, tol=1e-6, rhs_phase=True)))
+        out.append((f"real-A-complex-b-inv:n{n}m{m}", case_cg, dict(n=n, max_iters=m, tol=1e-6, rhs_phase=True, via="inv")))
     out.append(("precond-jacobi:n2m2", case_cg, dict(n=2, max_iters=2, precond="jacobi", tol=1e-9)))
     for n in (2, 3):
         for m in (1, n):
